@@ -547,6 +547,9 @@ def _fate_of_local(F, func, l, start, visiting, depth, after=None):
             fates.append("handled:switch")
     if not fates:
         return "dropped:unused"
+    for x in fates:
+        if x.startswith("dropped:err-arm-returns-o"):
+            return x          # a match whose Err arm swallows the error on some path outweighs the arm that hands it on
     for pref in ("propagated", "returned"):
         if pref in fates:
             return pref
@@ -594,6 +597,7 @@ def _match_fate(F, func, b, stmt, l):
     only_print = True
     returns = False
     rejoins = False
+    ok_in_err = False
     while st:
         x = st.pop()
         if x in seen:
@@ -608,6 +612,8 @@ def _match_fate(F, func, b, stmt, l):
         for s in func.blocks[x]["stmts"]:
             if s["k"] == "assign" and s["pl"]["l"] == 0:
                 returns = True
+                if not s["pl"]["p"] and s["rv"]["k"] == "agg" and s["rv"].get("adt") == "core::result::Result" and s["rv"].get("var") == "Ok":
+                    ok_in_err = True        # `Err(e) if cond => Ok(..)`: the error ends as a success
         if bt["k"] == "return":
             returns = True
         if bt["k"] == "call":
@@ -623,6 +629,8 @@ def _match_fate(F, func, b, stmt, l):
             else:
                 only_print = False
         st.extend(succs(bt))
+    if ok_in_err:
+        return "dropped:err-arm-returns-ok-on-some-path"
     if returns and rejoins:
         # the error is returned on some paths of the Err arm and swallowed on others (`if cond { return Err(e) }`)
         return "dropped:err-arm-returns-only-on-some-paths"
